@@ -135,7 +135,24 @@ def run_case(case, ctx):
 			args += ['-c', str(case['cores'])]
 		args += ['--progress' if case['progress'] else '--no-progress']
 
-		res = run_cli(args)
+		cwd = None
+		if case.get('relative'):
+			# paths given relative to the working directory
+			cwd = d
+		rel = (lambda lst: [os.path.relpath(a, d) if a.startswith(d + os.sep) else a for a in lst]) if case.get('relative') else (lambda lst: lst)
+		if case.get('prerun') and qmode != 'qs':
+			# the same command was run before on DIFFERENT content at the same paths (same labels): nothing may be remembered
+			import shutil as _sh
+			keep = {}
+			for i, pth in enumerate(qpaths):
+				keep[pth] = open(pth, 'rb').read()
+				Wd.write_fasta(pth, [c_[::-1] for c_ in qgen[i]], gz=False, name='other')
+			run_cli(rel(args), cwd=cwd)
+			for pth, blob in keep.items():
+				open(pth, 'wb').write(blob)
+			if os.path.exists(out):
+				os.unlink(out)
+		res = run_cli(rel(args), cwd=cwd)
 		desc = f'`gambit {" ".join(os.path.relpath(a, d) if a.startswith(d) else a for a in args)}` (effective spec {eff})'
 		if res.exit_code != 0:
 			raise Violation('command_failed', f'{desc}: exit {res.exit_code}: {res.stderr[-300:]} {res.exception!r}', case)
@@ -168,7 +185,7 @@ def run_case(case, ctx):
 					args2 += ['-r', p]
 			else:
 				args2 += ['--rl', os.path.join(d, 'ql.txt'), '--rdir', os.path.join(d, 'qbase')]
-			res2 = run_cli(args2)
+			res2 = run_cli(rel(args2), cwd=cwd)
 			if res2.exit_code != 0:
 				raise Violation('command_failed', f'square-equivalent run failed: exit {res2.exit_code}: {res2.stderr[-300:]} {res2.exception!r}', case)
 			if H.read_csv(out2) != rows:
@@ -176,6 +193,10 @@ def run_case(case, ctx):
 		cells = {c for r in rows[1:] for c in r[1:]}
 		classes = [f'q={qmode}', f'r={rmode}', 'explicit_kp' if E else 'implicit_kp', f'cores={case["cores"]}',
 		           'progress' if case['progress'] else 'no_progress', 'spec=default' if eff == DEFAULT_SPEC else 'spec=other']
+		if case.get('relative'):
+			classes.append('relative_paths')
+		if case.get('prerun') and qmode != 'qs':
+			classes.append('rerun_after_content_change')
 		if any(any(ch in l for ch in ',"\n') for l in qlabels + rlabels):
 			classes.append('label_needs_quoting')
 		if any(ord(ch) > 127 for l in qlabels + rlabels for ch in l):
@@ -210,6 +231,8 @@ def gen_case(draw, tier):
 		'cores': draw(st.sampled_from([None, 1, 3, 16, None])),
 		'progress': draw(st.booleans()),
 		'int_ids': draw(st.booleans()),
+		'relative': draw(st.sampled_from([False, True, False])),
+		'prerun': draw(st.sampled_from([False, False, False, True])),
 	}
 	if rmode == 'use_db':
 		case['world'] = draw(Wd.world(max_refs=4, min_refs=1, max_queries=1, nasty_names=False))
